@@ -503,16 +503,13 @@ theorem C10_lock_order_is_not_sampling_order :
     have h1 := (hfull (fun _ => 1) _ s hrun).1.1
     simp [hrun, h1] at key
 
-/- AFTER fixes/C10-sample-under-lock HAS LANDED in /repo (fact `sampleUnderLock` = true; rebaseline):
-   uncomment this block — the obligation and the full-strength theorem for the code as it is.
-
-/-- obligation fed by the translator fact `sampleUnderLock`: in both front ends the platform call and
+/-- (fix 875e1d0 landed) obligation fed by the translator fact `sampleUnderLock`: in both front ends the platform call and
     the `wrap_numbers` call sit inside one `with <module-level threading.Lock()>:` when `nowrap` -/
 theorem cfg_sample_under_lock : cfg.SampleGood := by unfold Cfg.SampleGood; decide
 
+/-- **C10_concurrent_full_strength_cfg.** The concurrent clause at full strength for the code as it is now. -/
 theorem C10_concurrent_full_strength_cfg : C10_concurrent_Full cfg :=
   C10_concurrent_full_strength cfg cfg_good cfg_good_conc cfg_sample_under_lock
--/
 
 /-- **C10_unlocked_not_serialisable.** The lock is what makes this true: with `run` outside the
     lock two threads that both read the cache `{sda:100}` before either writes it back return 110
